@@ -50,7 +50,7 @@ class G:
         r = self.rng.random()
         s = self.rng.choice([b'', b'a', b'Chapter 1', b'\xfe\xff\x00A\x00B', b'\xfe\xff\x00A\x00', b'\xff\xfeA\x00',
                              b'\xff\xfeA', b'\xfe\xff\xd8\x3d\xde\x00', b'\xfe\xff\xd8\x3d', b'\xc3\xa9t\xe9', b'k1', b'k2',
-                             b'\xe2\x82', b'\xf0\x9f\x98\x80'])
+                             b'\xe2\x82', b'\xf0\x9f\x98\x80', b'\xff', b'\xfe', b'\xff\xfe', b'\xfe\xff'])
         return H(s) if r < 0.2 else S(s)
 
     def val(self, depth=0):
@@ -110,7 +110,7 @@ class G:
         if r < 0.55: return A([])
         if r < 0.65: return A([self.ref(self.pick('page'))])
         if r < 0.8: return S(self.rng.choice([b'k1', b'k2', b'missing']))
-        if r < 0.9: return self.ref(self.pick('array'))
+        if r < 0.9: return self.ref(self.pick(self.rng.choice(['array', 'array', 'refobj'])))   # indirect destination
         return self.val()
 
     def title_value(self):
@@ -234,7 +234,8 @@ class G:
             return rng.choice([A([self.ref(self.pick('page')), N('Fit')]), A([]), A([self.ref()]),
                                self.refs_array(None, 0, 4), A([self.val() for _ in range(rng.randint(0, 3))])])
         if role == 'refobj':
-            return self.ref()                                        # an object that is itself a reference
+            # an object that is itself a reference; often to another such object (cycles and chains of references)
+            return self.ref(self.pick('refobj')) if rng.random() < 0.4 else self.ref()
         if role == 'int':
             return rng.choice([self.int_(), self.ref(self.pick('int'))])
         if role == 'string':
@@ -475,9 +476,135 @@ def gen_wellformed(rng):
     return doc_of(sorted(objs), cat)
 
 
+DEREF_LIMIT = 128          # src/document.rs; the model reads it through Gen/Consts.v -- here it only places the chain lengths
+
+
+def _outline_doc(items, extra, npages=2, names=None):
+    """catalog 1, page tree 2 with pages 3..2+npages, outline root 9 whose items are chained through Next from object 10 on;
+    items: list of entry lists (without Next); extra: further (id, obj); names: entries of a Dests name tree (object 8)"""
+    pages = list(range(3, 3 + npages))
+    objs = [(2, D([('Type', N('Pages')), ('Kids', A([REF(p) for p in pages])), ('Count', I(npages))]))]
+    objs += [(p, D([('Type', N('Page')), ('Parent', REF(2))])) for p in pages]
+    cat = [('Type', N('Catalog')), ('Pages', REF(2)), ('Outlines', REF(9))]
+    if names is not None:
+        cat.append(('Dests', REF(8)))
+        objs.append((8, D([('Names', A(names))])))
+    objs.append((1, D(cat)))
+    objs.append((9, D([('Type', N('Outlines')), ('First', REF(10))])))
+    for k, ents in enumerate(items):
+        objs.append((10 + k, D(list(ents) + ([('Next', REF(11 + k))] if k + 1 < len(items) else []))))
+    return doc_of(sorted(objs + list(extra)))
+
+
+def _dest_entry(style, dest, title=S(b't')):
+    """the two places a destination is read from: `Dest`, or `D` of a GoTo / GoToR action (direct or indirect action)"""
+    if style == 'dest':
+        return [('Title', title), ('Dest', dest)]
+    return [('Title', title), ('A', D([('S', N('GoTo' if style == 'goto' else 'GoToR')), ('D', dest)]))]
+
+
+def _ref_shape(shape, base, target):
+    """objects (id, obj) starting at id `base` that an indirect destination `base 0 R` runs through"""
+    if shape == 'self':
+        return [(base, REF(base))]
+    if shape == 'cycle2':
+        return [(base, REF(base + 1)), (base + 1, REF(base))]
+    if shape == 'cycle3':
+        return [(base, REF(base + 1)), (base + 1, REF(base + 2)), (base + 2, REF(base))]
+    if shape == 'rho':                                          # a tail that runs into a 2-cycle not containing its start
+        return [(base, REF(base + 1)), (base + 1, REF(base + 2)), (base + 2, REF(base + 1))]
+    if shape == 'dangling':
+        return []                                               # `base` itself is absent
+    kind, k = shape                                             # ('chain', k): k reference objects, then the target
+    assert kind == 'chain'
+    return [(base + j, REF(base + j + 1)) for j in range(k)] + [(base + k, target)]
+
+
+DESTREF_SHAPES = ['self', 'cycle2', 'cycle3', 'rho', 'dangling'] + \
+                 [('chain', k) for k in (0, 1, 2, DEREF_LIMIT - 2, DEREF_LIMIT - 1, DEREF_LIMIT, DEREF_LIMIT + 1, DEREF_LIMIT + 2, 200)]
+
+
+def destref_doc(specs, named=True):
+    """specs: list of (style, shape, target kind); one outline item each, its destination the indirect object 1000*k"""
+    items, extra = [], []
+    for k, (style, shape, tk) in enumerate(specs):
+        base = 1000 * (k + 1)
+        target = {'array': A([REF(3 + k % 2), N('Fit')]), 'short': A([REF(3)]), 'named': S(b'k1'), 'missing': S(b'nope'),
+                  'dict': D([('D', A([REF(3), N('Fit')]))]), 'int': I(7)}[tk]
+        extra += _ref_shape(shape, base, target)
+        items.append(_dest_entry(style, REF(base), S(b't%d' % k)))
+    names = [S(b'k1'), D([('D', A([REF(4), N('XYZ'), I(0), I(0), I(0)]))])] if named else None
+    return _outline_doc(items, extra, names=names)
+
+
+def gen_destref(rng):
+    """outline items whose Dest / A.D is an INDIRECT object: reference cycles, chains around DEREF_LIMIT, dangling"""
+    specs = []
+    for _ in range(rng.randint(1, 3)):
+        shape = rng.choice(DESTREF_SHAPES)
+        if isinstance(shape, tuple) and shape[1] > 8 and any(isinstance(s[1], tuple) and s[1][1] > 8 for s in specs):
+            shape = ('chain', rng.choice([0, 1, 2]))            # at most one long chain per case (every id is queried)
+        specs.append((rng.choice(['dest', 'dest', 'goto', 'gotor']), shape,
+                      rng.choice(['array', 'array', 'array', 'named', 'short', 'missing', 'dict', 'int'])))
+    return destref_doc(specs, named=rng.random() < 0.8)
+
+
+TITLE_POOL = [b'', b'\xfe', b'\xff', b'a', b'\x80', b'\x00', b'\xc3',
+              b'\xfe\xff', b'\xff\xfe', b'ab', b'\xff\xff', b'\xfe\xfe', b'\xc3\xa9', b'\xff\x41', b'\xfe\x41',
+              b'\xfe\xff\x00', b'\xff\xfe\x41', b'abc', b'\xfe\xff\xd8', b'\xe2\x82\xac',
+              b'\xfe\xff\x00A', b'\xff\xfeA\x00', b'\xfe\xff\xd8\x3d', b'\xff\xfe\x3d\xd8', b'\xfe\xff\x00A\x00', b'\xff\xfeA\x00B',
+              b'\xfe\xff\xd8\x3d\xde\x00', b'\xff\xfe\x3d\xd8\x00\xde', b'Chapter 1']
+
+
+def toctitle_doc(titles, rng=None):
+    """every item points at a page that IS in the page tree, so get_toc reaches the title decoding for each title"""
+    items, extra, names = [], [], []
+    for k, t in enumerate(titles):
+        style = rng.choice(['dest', 'dest', 'dest', 'goto', 'named', 'titleref', 'indirect', 'offtree']) if rng else 'dest'
+        ts = (H if (rng and rng.random() < 0.25) else S)(t)
+        page = REF(3 + k % 2)
+        if style == 'named':                                    # the title replaces the one stored in the named destination
+            key = b'n%d' % k
+            names += [S(key), D([('D', A([page, N('Fit')]))])]
+            items.append([('Title', ts), ('Dest', S(key))])
+        elif style == 'titleref':                               # an indirect Title is only resolved on the action path
+            extra.append((500 + k, ts))
+            items.append([('Title', REF(500 + k)), ('A', D([('S', N('GoTo')), ('D', A([page, N('Fit')]))]))])
+        elif style == 'indirect':
+            extra.append((600 + k, A([page, N('Fit')])))
+            items.append([('Title', ts), ('Dest', REF(600 + k))])
+        elif style == 'offtree':                                # a page object that no Kids array lists: the row is skipped
+            extra.append((700 + k, D([('Type', N('Page'))])))
+            items.append([('Title', ts), ('Dest', A([REF(700 + k), N('Fit')]))])
+        else:
+            items.append(_dest_entry(style, A([page, N('Fit')]), ts))
+    return _outline_doc(items, extra, names=names if names else None)
+
+
+def gen_toctitle(rng):
+    return toctitle_doc(rng.sample(TITLE_POOL, rng.randint(1, 5)), rng)
+
+
+def edge_cases():
+    """fixed members of the two families above (present in every run, whatever the seed)"""
+    E = {}
+    for style in ('dest', 'goto'):
+        for shape in ('self', 'cycle2', 'cycle3', 'rho', 'dangling'):
+            E['destref-%s-%s' % (style, shape)] = destref_doc([(style, shape, 'array')], named=False)
+        for k in (DEREF_LIMIT - 1, DEREF_LIMIT, DEREF_LIMIT + 1):
+            E['destref-%s-chain%d' % (style, k)] = destref_doc([(style, ('chain', k), 'array')], named=False)
+    E['destref-named-chain%d' % DEREF_LIMIT] = destref_doc([('dest', ('chain', DEREF_LIMIT), 'named')])
+    E['destref-named-chain%d' % (DEREF_LIMIT + 1)] = destref_doc([('dest', ('chain', DEREF_LIMIT + 1), 'named')])
+    for t in (b'', b'\xff', b'\xfe', b'a', b'\x80', b'\xfe\xff', b'\xff\xfe', b'\xfe\xff\x00', b'\xff\xfe\x41'):
+        E['toctitle-' + (t.hex() or 'empty')] = toctitle_doc([t])
+    E['toctitle-all-short'] = toctitle_doc([b'', b'\xff', b'\xfe', b'a', b'\xff\xfe', b'\xfe\xff', b'\xfe\xff\x00'])
+    return E
+
+
 def gen_cases(rng, tier):
     n = 420 if tier == 'quick' else 12000
     cases = [(w, {'kind': 'witness-' + k, 'nontrivial': True}) for k, w in sorted(witnesses().items())]
+    cases += [(w, {'kind': 'edge-' + k, 'nontrivial': True}) for k, w in sorted(edge_cases().items())]
     for k in range(n):
         r = rng.random()
         if r < 0.08:
@@ -491,6 +618,13 @@ def gen_cases(rng, tier):
         else:
             p = rng.choice([0.05, 0.15, 0.3, 0.5])
             cases.append((gen_chaos(rng, p), {'kind': 'chaos-%d' % int(p * 100), 'nontrivial': True}))
+    # a separate stream for the two families added later (drawn last: the cases above stay what they were)
+    rng2 = rng
+    for k in range(30 if tier == 'quick' else 900):
+        if rng2.random() < 0.5:
+            cases.append((gen_destref(rng2), {'kind': 'destref', 'nontrivial': True}))
+        else:
+            cases.append((gen_toctitle(rng2), {'kind': 'toctitle', 'nontrivial': True}))
     return cases
 
 
@@ -518,7 +652,11 @@ SPEC = {
             '34 keys the query code reads, stream, reference to a random / dangling / own id) and otherwise to its expected kind '
             'with references to random objects of the expected role (cycles through Parent, Kids, First, Next, Contents, '
             'Length, Count ...); chains of 5..300 links at every limit (dereference, Contents, Parent, First, Next, Kids, page '
-            'tree, direct nesting); outlines and name trees with shared sub-structures whose unfolding straddles the reference budget; well-formed documents; the 17 witnesses of the repaired defects; every query is called for '
+            'tree, direct nesting); outlines and name trees with shared sub-structures whose unfolding straddles the reference budget; well-formed documents; the 17 witnesses of the repaired defects; '
+            'outline items whose Dest / A.D is an indirect object that is a reference to itself, a 2- or 3-cycle of references, a tail into a cycle, a '
+            'chain of 0..200 reference objects (126..130 around DEREF_LIMIT) ending in a destination array / name / wrong kind, or dangling; '
+            'outline items with Titles of 0..9 bytes (every 0/1/2/3-byte shape of the byte-order-mark tests, literal and hexadecimal, direct, '
+            'indirect, through a named destination) whose destination is a page of the page tree (28 fixed members of both families in every run); every query is called for '
             'every object id plus a dangling one; non-trivial = all; distinct = distinct case text',
     'extra_trusted': ['C13: worker isolation (child process per case, 4 s wall-clock per query group) decides hang/abort; '
                       'panic classes are read from the panic message',
